@@ -121,7 +121,8 @@ class GenModel:
             v = ctx.choice(n, "choice")
         else:
             cand = [i for i in range(n) if p[i] > 0]
-            v = ctx.pick(cand, "choice")
+            # first_admissible: a harness that only needs *a* legal continuation takes the first index with p > 0 (no fork)
+            v = cand[0] if (getattr(GenModel, "first_admissible", False) and cand) else ctx.pick(cand, "choice")
         self._tick("choice", v)
         return v
 
